@@ -3,6 +3,7 @@ package all
 
 import (
 	_ "verifsim/worlds/conn"
+	_ "verifsim/worlds/gmwworld"
 	_ "verifsim/worlds/kos"
 	_ "verifsim/worlds/mesh"
 	_ "verifsim/worlds/mulgadgets"
